@@ -1362,6 +1362,7 @@ public:
   ASMJIT_INST_0x(fwait, Fwait)                                         // FPU
   ASMJIT_INST_0x(fxam, Fxam)                                           // FPU
   ASMJIT_INST_1x(fxch, Fxch, St)                                       // FPU
+  ASMJIT_INST_0x(fxch, Fxch)                                           // FPU
   ASMJIT_INST_0x(fxtract, Fxtract)                                     // FPU
   ASMJIT_INST_0x(fyl2x, Fyl2x)                                         // FPU
   ASMJIT_INST_0x(fyl2xp1, Fyl2xp1)                                     // FPU
